@@ -947,8 +947,9 @@ def _gen_matmul(g):
     b = _small(g, sb, kind=a["kind"]) if g.rng.random() < 0.8 else \
         g.const_operand(shape=sb, kind=a["kind"])
     ops = [a, b]
-    if b["k"] != "poly" and form in ("mm",) and n == m and g.rng.random() < 0.5:
-        pass
+    if g.rng.random() < 0.15:
+        # the plain numeric operand on the left: A @ P (never P @ A, also for square shapes)
+        ops = [g.const_operand(shape=sa, kind=a["kind"]), _small(g, sb, kind=a["kind"])]
     return {"operands": ops, "kw": {}}
 
 
@@ -977,8 +978,12 @@ Op("matmul", "linalg", _gen_matmul, lambda ns, ops, kw: ns.matmul(ops[0], ops[1]
 
 def _gen_det(g):
     n = g.rng.choice([1, 2, 2, 3, 3, 4])
-    stacked = g.rng.random() < 0.25
-    shape = (2, n, n) if stacked else (n, n)
+    roll = g.rng.random()
+    shape = (n, n)
+    if roll < 0.25:
+        shape = (2, n, n)
+    elif roll < 0.4 and n <= 3:
+        shape = g.rng.choice([(2, 3), (3, 2), (1, 2), (2, 1, 2)]) + (n, n)  # several stack axes
     nterms = 1 if n == 4 else g.rng.choice([1, 2])
     poly = g.poly(shape=shape, nterms=nterms, maxexp=1, names=g.rng.choice([["q0"], ["q0", "q1"]]),
                   kind=g.rng.choice(["int", "int", "float"]))
